@@ -392,7 +392,14 @@ class Evaluator:
         ('param', name)."""
         if self_term == 'auto':
             self_term = ('self', self.clskey(fi.cls)) if fi.cls is not None and fi.parent is None else None
-        return self.inline(fi, list(args or []), list((kwargs or {}).items()), self_term, None, entry=True)
+        cenv = None
+        if fi.parent is not None and fi.cls is not None:
+            # nested function analysed on its own: free variables of the enclosing
+            # method stay symbolic, `self` is the instance
+            cenv = Env()
+            cenv.vars['self'] = ('self', self.clskey(fi.cls))
+            self.envs[id(cenv)] = cenv
+        return self.inline(fi, list(args or []), list((kwargs or {}).items()), self_term, cenv, entry=True)
 
     # ---- function inlining ---------------------------------------------
     def inline(self, fi: FuncInfo, args, kwargs, self_term, closure_env, entry=False, site=None):
@@ -700,6 +707,12 @@ class Evaluator:
             self._guarded(st, True, test, st.body, e1, fctx)
             self._guarded(st, False, test, st.orelse, e2, fctx)
             env.join_from([e1, e2])
+            # an early exit (raise/return/continue) makes the rest of the block
+            # conditional on the other polarity
+            if e1.dead and not e2.dead:
+                self.guards.append((st, False, test))
+            elif e2.dead and not e1.dead:
+                self.guards.append((st, True, test))
 
     def _guarded(self, st, pol, test, body, env, fctx):
         self.guards.append((st, pol, test))
@@ -718,8 +731,10 @@ class Evaluator:
         fctx.loop_exits = []
         pre = env.copy()
         body_env = env.copy()
+        glen = len(self.guards)
         for _ in range(2):
             self._guarded(st, True, test, st.body, body_env, fctx)
+            del self.guards[glen:]
             exits = fctx.loop_exits
             fctx.loop_exits = []
             nxt = env.copy()
@@ -740,9 +755,11 @@ class Evaluator:
         pre = env.copy()
         body_env = env.copy()
         last = pre
+        glen = len(self.guards)
         for _ in range(2):
             self.assign(st.target, el, body_env, fctx)
             self.exec_block(st.body, body_env, fctx)
+            del self.guards[glen:]
             exits = fctx.loop_exits
             fctx.loop_exits = []
             nxt = env.copy()
@@ -758,7 +775,9 @@ class Evaluator:
 
     def st_Try(self, st, env, fctx):
         pre = env.copy()
+        glen = len(self.guards)
         self.exec_block(st.body, env, fctx)
+        del self.guards[glen:]
         outs = []
         mid = env.copy()
         for h in st.handlers:
@@ -1166,6 +1185,11 @@ class Evaluator:
             r = self.builtin(f[1], args, kwargs, site, node, env, fctx)
             if r is not None:
                 return r
+            if '.' in f[1]:
+                head, _, last = f[1].rpartition('.')
+                r = self.method_summary(('attr', ('name', head), last), args, kwargs, site, node, env, fctx)
+                if r is not None:
+                    return r
         if k == 'attr':
             r = self.method_summary(f, args, kwargs, site, node, env, fctx)
             if r is not None:
